@@ -199,6 +199,12 @@ def _stream_worker(a):
         # the unsanitized build under valgrind memcheck: values used before they are set, reads of freed or foreign memory that the
         # red zones of the sanitized build do not border
         bp = a["plain"]
+        if seed % 2:
+            # class rules whose settings are unusual but legal: blank and odd address values, empty strings, every criterion at once
+            odd = [{"name": "r%d" % k_, "class": "c%d" % k_, "address": v_} for k_, v_ in enumerate(rng.sample(
+                [" ", "", "*", "10.*", "10.0.0.0/0", "2001:db8::/128", "0::/0", "1.2.3.4/32", "  ", "10.1/16", "::ffff:1.2.3.4/100", "bogus", "1.2.3.4/", "/8"], 5))]
+            odd.append({"name": "zz", "account": "", "username": "", "hostname": "", "xreply_ok": "", "trust_username": "maybe"})
+            cfg = proto.Config(cfg.services, timeout=cfg.timeout, rules=odd, use_class=True)
         conf = cfg.text(bp["moddir"])
         for rep in range(a["reps"]):
             bl = mutate(rng, lines, ids) if rng.random() < 0.7 else [l.encode("latin-1") for l in lines]
